@@ -188,6 +188,171 @@ theorem unforked_set_drops_fork {g : Graph V} (s : St V) {i : Nat} (hi : i < g.n
   have : ¬ g.n ≤ i := by omega
   simp [this, hk, hm]
 
+/-! ### whole sampler steps (the way `samplers/gibbs.py` drives the state) -/
+
+/-- `IndividualGibbsSampler.sample` as seen by the state: reads of the current terms, proposal by out-of-place
+    accumulation (`state.put(name, change, accumulate=True)`), reads of the new terms, then
+    `state.revert(~accepted)` with `rejected` the mask of rejected individuals (how it is computed is C03's matter). -/
+def indSamplerStep (g : Graph V) (mix : M → V → V → V) (s : St V) (i : Nat)
+    (readsBefore readsAfter : List Nat) (change : V → V) (dflt : V) (rejected : M) : St V :=
+  let s1 := gets g s readsBefore
+  let s2 := (put g s1 i (some change) dflt).1
+  let s3 := gets g s2 readsAfter
+  (revert mix s3 (some rejected)).1
+
+/-- One block of a population sampler: reads, proposal by accumulation, reads, then `revert()` unless accepted. -/
+def popBlockStep (g : Graph V) (mix : M → V → V → V) (s : St V) (i : Nat)
+    (readsBefore readsAfter : List Nat) (change : V → V) (dflt : V) (accepted : Bool) : St V :=
+  let s1 := gets g s readsBefore
+  let s2 := (put g s1 i (some change) dflt).1
+  let s3 := gets g s2 readsAfter
+  if accepted then s3 else (revert mix s3 none).1
+
+private theorem put_cached {g : Graph V} (s : St V) {i : Nat} (hi : i < g.n) {x : V} (hx : s.vals i = some x)
+    (t : V → V) (d : V) : put g s i (some t) d = State.set g s i (some (t x)) := by
+  unfold put State.get
+  have : ¬ g.n ≤ i := by omega
+  simp [this, hx]
+
+/-- **Individual sampler step.**  Whatever is read before and after the proposal (within the documented
+    precondition) and whatever the decisions are, after the step the sampled variable is, entry-wise, the old value
+    for rejected individuals and the proposed one for accepted individuals; no other independent value changed; the
+    state is consistent and holds no fork; every later read is the from-scratch value on that state. -/
+theorem ind_sampler_step {g : Graph V} (wf : WF g) (mix : M → V → V → V) {s : St V} (h : Inv g s)
+    (hm : s.mode = true) {i : Nat} (hi : i < g.n) (hk : g.kind i = .indep true) {x : V} (hx : s.vals i = some x)
+    (rb ra : List Nat) (hrb : ∀ j ∈ rb, j < g.n) (hra : ∀ j ∈ ra, j < g.n) (change : V → V) (d : V) (m : M)
+    (hpre : ∀ k ∈ g.desc i, ∀ o c, (gets g s rb).vals k = some o →
+      (gets g (State.set g (gets g s rb) i (some (change x))).1 ra).vals k = some c → Commutes g mix m i k) :
+    let s' := indSamplerStep g mix s i rb ra change d m
+    Inv g s' ∧ absS g s' = upd (absS g s) i (some (mix m x (change x))) ∧ s'.fork = none ∧
+    ∀ k, k < g.n → ReadOK g (upd (absS g s) i (some (mix m x (change x)))) k (State.get g s' k).2 := by
+  intro s'
+  obtain ⟨b1, b2, _, b4, b5⟩ := gets_spec wf rb s h hrb
+  have hx1 : (gets g s rb).vals i = some x := b5 i x hx
+  have hput := put_cached (g := g) (gets g s rb) hi hx1 change d
+  have key := rejected_partial wf mix b1 (b4.trans hm) hi hk (some (change x)) ra hra m hpre
+  simp only [hx1, mixOpt, b2] at key
+  have hs' : s' = (revert mix (gets g (State.set g (gets g s rb) i (some (change x))).1 ra) (some m)).1 := by
+    show indSamplerStep g mix s i rb ra change d m = _
+    unfold indSamplerStep
+    simp only [hput]
+  rw [hs']
+  exact key
+
+/-- **Population sampler block.**  After one block the sampled variable holds the proposed value if the block was
+    accepted and exactly the old value otherwise; nothing else changed; the state is consistent. -/
+theorem pop_block_step {g : Graph V} (wf : WF g) (mix : M → V → V → V) {s : St V} (h : Inv g s)
+    (hm : s.mode = true) {i : Nat} (hi : i < g.n) (hk : g.kind i = .indep true) {x : V} (hx : s.vals i = some x)
+    (rb ra : List Nat) (hrb : ∀ j ∈ rb, j < g.n) (hra : ∀ j ∈ ra, j < g.n) (change : V → V) (d : V)
+    (accepted : Bool) :
+    let s' := popBlockStep g mix s i rb ra change d accepted
+    Inv g s' ∧ absS g s' = upd (absS g s) i (some (if accepted then change x else x)) ∧ s'.mode = true ∧
+    ∀ k, k < g.n → ReadOK g (upd (absS g s) i (some (if accepted then change x else x))) k (State.get g s' k).2 := by
+  intro s'
+  obtain ⟨b1, b2, _, b4, b5⟩ := gets_spec wf rb s h hrb
+  have hx1 : (gets g s rb).vals i = some x := b5 i x hx
+  have hput := put_cached (g := g) (gets g s rb) hi hx1 change d
+  have hm1 : (gets g s rb).mode = true := b4.trans hm
+  cases accepted with
+  | true =>
+    have key := accepted wf b1 hi hk (some (change x)) ra hra
+    simp only [b2] at key
+    have hs' : s' = gets g (State.set g (gets g s rb) i (some (change x))).1 ra := by
+      show popBlockStep g mix s i rb ra change d true = _
+      unfold popBlockStep
+      simp only [hput, if_true]
+    rw [hs']
+    obtain ⟨k1, k2, k3⟩ := key
+    refine ⟨k1, by simpa using k2, ?_, by simpa using k3⟩
+    obtain ⟨_, _, f3⟩ := set_fork (g := g) (gets g s rb) hi hk hm1 (some (change x))
+    obtain ⟨_, _, _, g4, _⟩ := gets_spec wf ra _ (inv_set wf b1 i (some (change x))) hra
+    exact g4.trans f3
+  | false =>
+    have key := rejected_full wf mix b1 hm1 hi hk (some (change x)) ra hra
+    simp only [b2] at key
+    have hs' : s' = (revert mix (gets g (State.set g (gets g s rb) i (some (change x))).1 ra) none).1 := by
+      show popBlockStep g mix s i rb ra change d false = _
+      unfold popBlockStep
+      simp only [hput]
+      rfl
+    rw [hs']
+    obtain ⟨_, k1, k2, _, k4⟩ := key
+    have habs : absS g (gets g s rb) = upd (absS g s) i (some x) := by
+      rw [b2]
+      funext k
+      unfold upd
+      by_cases hki : k = i
+      · subst hki
+        simp only [if_true]
+        unfold absS absC
+        simp [hk, hx]
+      · simp [hki]
+    have habs' : absS g s = upd (absS g s) i (some x) := by rw [b2] at habs; exact habs
+    refine ⟨k1, ?_, ?_, ?_⟩
+    · simp only [Bool.false_eq_true, if_false]; rw [k2]; exact habs'
+    · -- mode is untouched by reads, assignments and reverts
+      obtain ⟨_, _, f3⟩ := set_fork (g := g) (gets g s rb) hi hk hm1 (some (change x))
+      obtain ⟨_, _, g3, g4, _⟩ := gets_spec wf ra _ (inv_set wf b1 i (some (change x))) hra
+      have : (gets g (State.set g (gets g s rb) i (some (change x))).1 ra).mode = true := g4.trans f3
+      unfold revert
+      cases hF : (gets g (State.set g (gets g s rb) i (some (change x))).1 ra).fork <;> simp [this]
+    · intro k hk'
+      have := k4 k hk'
+      simp only [Bool.false_eq_true, if_false]
+      rw [← habs']
+      exact this
+
+/-- one block of a sweep: the change proposed, the decision, and what is read before / after the proposal -/
+structure Block (V : Type) where
+  change : V → V
+  accepted : Bool
+  readsBefore : List Nat
+  readsAfter : List Nat
+
+/-- `AbstractPopulationSampler.sample`: the blocks one after the other -/
+def popSweep (g : Graph V) (mix : M → V → V → V) (i : Nat) (d : V) (s : St V) (bs : List (Block V)) : St V :=
+  bs.foldl (fun s b => popBlockStep g mix s i b.readsBefore b.readsAfter b.change d b.accepted) s
+
+private theorem vals_of_abs {g : Graph V} {s : St V} {i : Nat} (hk : g.kind i = .indep true) {a : Cache V}
+    (h : absS g s = a) : s.vals i = a i := by
+  have := congrFun h i
+  unfold absS absC at this
+  simpa [hk] using this
+
+/-- **Population sampler sweep.**  After any number of blocks with any decisions, the sampled variable holds the value
+    obtained by applying exactly the accepted changes, in order, to the initial value; nothing else changed. -/
+theorem pop_sweep {g : Graph V} (wf : WF g) (mix : M → V → V → V) {i : Nat} (hi : i < g.n)
+    (hk : g.kind i = .indep true) (d : V) :
+    ∀ (bs : List (Block V)) (s : St V) (x : V), Inv g s → s.mode = true → s.vals i = some x →
+      (∀ b ∈ bs, (∀ j ∈ b.readsBefore, j < g.n) ∧ (∀ j ∈ b.readsAfter, j < g.n)) →
+      let x' := bs.foldl (fun x b => if b.accepted then b.change x else x) x
+      Inv g (popSweep g mix i d s bs) ∧ absS g (popSweep g mix i d s bs) = upd (absS g s) i (some x') ∧
+      (popSweep g mix i d s bs).mode = true := by
+  intro bs
+  induction bs with
+  | nil =>
+    intro s x h hm hx _
+    refine ⟨h, ?_, hm⟩
+    show absS g s = upd (absS g s) i (some x)
+    funext k
+    unfold upd
+    by_cases hki : k = i
+    · subst hki; simp only [if_true]; unfold absS absC; simp [hk, hx]
+    · simp [hki]
+  | cons b bs ih =>
+    intro s x h hm hx hr
+    obtain ⟨hb1, hb2⟩ := hr b (by simp)
+    obtain ⟨s1, s2, s3, _⟩ := pop_block_step wf mix h hm hi hk hx b.readsBefore b.readsAfter hb1 hb2 b.change d b.accepted
+    have hx1 := vals_of_abs hk s2
+    simp only [upd, if_true] at hx1
+    obtain ⟨r1, r2, r3⟩ := ih _ _ s1 s3 hx1 (fun b' hb' => hr b' (by simp [hb']))
+    simp only [popSweep, List.foldl_cons] at r1 r2 r3 ⊢
+    refine ⟨r1, ?_, r3⟩
+    rw [r2, s2]
+    funext k
+    unfold upd
+    by_cases hki : k = i <;> simp [hki]
+
 /-! ### non-vacuity of `Commutes` -/
 
 
